@@ -95,26 +95,31 @@ func harnessC03UpcastPairs() {
 	c03Pair(ops)
 }
 
-//verif:entry property=C03 tier=both bounds="re-entrancy: one call back into the same bus (publish other type, publish same type from a non-sequential handler, subscribe, unsubscribe, clear, clear-all, HasHandlers, HandlerCount, or a panic of the handler) issued from inside a handler, a filter, a before-publish hook, an after-publish hook, the panic handler (after a handler panic) or the persistence error handler (after a rejected append); Sequential handler flag symbolic (self-delivery excluded as in the statement)" cover="reentrant-done"
+//verif:entry property=C03 tier=both bounds="re-entrancy: one call back into the same bus (publish other type, publish same type from a non-sequential handler, subscribe, unsubscribe, clear, clear-all, HasHandlers, HandlerCount, or a panic of the handler) issued from inside a handler, a filter, a before-publish hook, an after-publish hook, the panic handler (after a handler panic) or the persistence error handler (after a rejected append); Sequential and Async handler flags symbolic (synchronous self-delivery to a Sequential handler excluded as in the statement)" cover="reentrant-done"
 func harnessC03Reentrant() {
 	where := vPick(6) // 0 handler, 1 filter, 2 before hook, 3 after hook, 4 panic handler, 5 persistence error handler
 	what := vPick(9)
 	sequential := vBool()
+	async := vBool() // the calling-back handler is dispatched asynchronously
 	var bus *EventBus
-	depth := 0
+	var once sync.Mutex
+	fired := false
 	action := func() {
-		if depth > 0 {
+		// exactly one call back per run (the first delivery), also when handlers run asynchronously
+		once.Lock()
+		f := fired
+		fired = true
+		once.Unlock()
+		if f {
 			return
 		}
-		depth++
-		defer func() { depth-- }()
 		switch what {
 		case 0:
 			Publish(bus, evB{N: 1})
 		case 1:
 			// publishing the type being delivered from inside a synchronous Sequential
 			// handler would have to overlap itself: excluded by the statement
-			vAssume(!(sequential && where == 0))
+			vAssume(!(sequential && where == 0 && !async))
 			Publish(bus, evA{N: 2})
 		case 2:
 			Subscribe(bus, c01HA[2])
@@ -157,6 +162,9 @@ func harnessC03Reentrant() {
 	if sequential {
 		so = append(so, Sequential())
 	}
+	if async {
+		so = append(so, Async())
+	}
 	if where == 1 {
 		so = append(so, WithFilter(func(e evA) bool { action(); return true }))
 	}
@@ -171,6 +179,8 @@ func harnessC03Reentrant() {
 	}, so...)
 	Subscribe(bus, c01HB[0])
 	Publish(bus, evA{N: 1})
+	bus.Wait()
 	Publish(bus, evA{N: 3}) // the bus is still usable
+	bus.Wait()
 	vCover("reentrant-done")
 }
